@@ -184,6 +184,15 @@ func (idx *FlatIndex) Add(vector VectorNode) error {
 	}
 
 	// Simply append the preprocessed vector to our flat storage
+	// Re-adding an ID that is still soft-deleted (update = remove + add):
+	// purge the stale entry first, otherwise the new vector would stay hidden
+	// behind the tombstone and be dropped by the next Flush.
+	if idx.deletedNodes.Contains(vector.ID()) {
+		if err := idx.flushLocked(); err != nil {
+			return err
+		}
+	}
+
 	idx.vectors = append(idx.vectors, vector)
 	return nil
 }
@@ -267,6 +276,11 @@ func (idx *FlatIndex) Flush() error {
 	idx.mu.Lock()
 	defer idx.mu.Unlock()
 
+	return idx.flushLocked()
+}
+
+// flushLocked is Flush without taking the lock; the caller must hold the write lock.
+func (idx *FlatIndex) flushLocked() error {
 	// Quick exit if nothing to flush
 	deletedCount := int(idx.deletedNodes.GetCardinality())
 	if deletedCount == 0 {
